@@ -142,6 +142,12 @@ pub fn enumerate_opt<G: AffineRepr + 'static>(max1: usize, max2: usize, seed: u6
         // and the pairing state is untouched: the next allocation opens gate 0
         let r3 = prover.allocate(Some(FOf::<G>::from(3u64)));
         out.push(("prover: after a failed allocation the next allocation is MultiplierLeft(0)".into(), matches!(r3, Ok(Variable::MultiplierLeft(0)))));
+        // with a gate half open: still an error, the gate stays open, the next assignment closes it
+        let len1 = prover.multipliers_len();
+        let r4 = prover.allocate(None);
+        let len2 = prover.multipliers_len();
+        let r5 = prover.allocate(Some(FOf::<G>::from(5u64)));
+        out.push(("prover: a missing assignment while a gate is half open gives MissingAssignment, moves nothing, and the next allocation is MultiplierRight(0)".into(), matches!(r4, Err(R1CSError::MissingAssignment)) && len1 == len2 && matches!(r5, Ok(Variable::MultiplierRight(0)))));
     }
     out.push((format!("all {} call sequences give reference handles and gate counts on both roles", count), out.iter().all(|c| c.1)));
     (count, out)
